@@ -441,10 +441,18 @@ def run(ctx):
     rng = ctx.rng
     workdir = ponyutil.workdir('c14')
     try:
-        batch = []
         jobs = [(d['spec'], d['sessions']) for d in DIRECTED]
-        for _ in range(ctx.scale(110, 2500)):
+        for _ in range(ctx.scale(300, 4000)):
             jobs.append((gen_spec(rng), None))
+        for i in range(0, len(jobs), 250):                # in chunks: traces hold a snapshot per call
+            run_jobs(ctx, rng, jobs[i:i + 250], workdir)
+    finally:
+        ponyutil.rmtree(workdir)
+
+
+def run_jobs(ctx, rng, jobs, workdir):
+    if True:
+        batch = []
         for spec, sessions in jobs:
             sub = random.Random(rng.randrange(1 << 30))
             try:
@@ -469,8 +477,6 @@ def run(ctx):
                 if 'unknown property' in str(out.get('driver_error')): raise RuntimeError('the shared driver executable was replaced while running: %r' % out)
                 ctx.divergence('driver error', {'spec': spec, 'sessions': sessions_of(trace)}, model=out); continue
             compare(ctx, w, spec, trace, steps)
-    finally:
-        ponyutil.rmtree(workdir)
 
 
 def replay(ctx, data):
